@@ -922,6 +922,66 @@ func (c *concCtx) scenarioReAddBehindReader() {
 		w.Close()
 		os.RemoveAll(dir)
 	}
+	// the other order: the reader is parked in a send (nobody receives yet) with the old file's IN_MOVE_SELF still
+	// queued behind it; the path is re-added for the new file FIRST, the stale notification is handled afterwards
+	// and must not touch the new watch (the old descriptor's entry went with the re-Add)
+	for round := 0; round < 8; round++ {
+		dir, err := os.MkdirTemp("", "fsnverif-readd2")
+		check(err)
+		p := filepath.Join(dir, "p")
+		check(os.WriteFile(p, nil, 0o644))
+		w, err := newBW(0)
+		check(err)
+		check(w.Add(p))
+		os.WriteFile(p, []byte("1"), 0o644) // the reader handles this one and parks in sendEvent
+		time.Sleep(5 * time.Millisecond)
+		os.Rename(p, p+".old") // keeps the old inode alive: only IN_MOVE_SELF is queued
+		check(os.WriteFile(p, nil, 0o644))
+		var addErr error
+		if !c.within("C07", "C07:hang", "re-add ahead of the reader: Add did not return", func() { addErr = w.Add(p) }) {
+			os.RemoveAll(dir)
+			return
+		}
+		// now receive: the parked event, then whatever the stale notifications produce
+		quiet := time.After(150 * time.Millisecond)
+	drain:
+		for {
+			select {
+			case <-w.Events:
+			case <-w.Errors:
+			case <-quiet:
+				break drain
+			}
+		}
+		listed := false
+		for _, x := range w.WatchList() {
+			if x == p {
+				listed = true
+			}
+		}
+		os.WriteFile(p, []byte("x"), 0o644)
+		gotWrite := false
+		deadline := time.After(time.Second)
+	loop2:
+		for {
+			select {
+			case e := <-w.Events:
+				if e.Name == p && e.Has(fsnotify.Write) {
+					gotWrite = true
+					break loop2
+				}
+			case <-w.Errors:
+			case <-deadline:
+				break loop2
+			}
+		}
+		if addErr == nil && (!listed || !gotWrite) {
+			c.report("C07", "C07:readd-ahead-of-reader-lost", fmt.Sprintf("Add(p) of a replaced file returned nil while the old file's IN_MOVE_SELF was still queued behind a parked reader: after the reader caught up WatchList lists p = %v, a write to p is reported = %v — the re-Add came first, nothing removed p afterwards", listed, gotWrite),
+				map[string]interface{}{"history": []string{"Add(p)", "write p (reader parks in the send)", "rename p p.old; create p", "Add(p)", "receive everything", "WatchList; write p"}})
+		}
+		w.Close()
+		os.RemoveAll(dir)
+	}
 	c.r.emit("scenario", "scenario readd_behind_reader", "ok")
 }
 
